@@ -2,6 +2,8 @@ package main
 
 import (
 	"fmt"
+	"go/ast"
+	"go/token"
 	"go/types"
 	"strings"
 
@@ -372,19 +374,58 @@ func mapUpdates(a *FnA, mapShape string) []*ssa.MapUpdate {
 
 func returnShapes(a *FnA, idx int) []string {
 	m := map[string]bool{}
+	returnShapesInto(a, idx, 0, m)
+	return setKeys(m)
+}
+
+// returnShapesInto collects the shapes a function can return at result idx; a result that is the
+// result of an unexported helper of the same package (a validator split off by a refactoring) is
+// replaced by what that helper can return (depth <= 2).
+func returnShapesInto(a *FnA, idx, depth int, m map[string]bool) {
+	var addVal func(v ssa.Value)
+	addVal = func(v ssa.Value) {
+		if ph, ok := v.(*ssa.Phi); ok {
+			for _, e := range ph.Edges {
+				addVal(e)
+			}
+			return
+		}
+		if ld, ok := v.(*ssa.UnOp); ok && ld.Op == token.MUL {
+			if rs := reachingStore(ld); rs != nil {
+				addVal(rs)
+				return
+			}
+		}
+		var call *ssa.Call
+		ridx := 0
+		switch x := v.(type) {
+		case *ssa.Call:
+			call = x
+		case *ssa.Extract:
+			if c, ok := x.Tuple.(*ssa.Call); ok {
+				call, ridx = c, x.Index
+			}
+		}
+		if call != nil && depth < 2 {
+			if cal := call.Call.StaticCallee(); cal != nil && cal.Blocks != nil && cal.Pkg != nil && a.fn.Pkg == cal.Pkg && !ast.IsExported(cal.Name()) {
+				returnShapesInto(a.w.A(cal), ridx, depth+1, m)
+				return
+			}
+		}
+		s := a.sh.Of(v)
+		if s.K == "phi" {
+			for _, alt := range s.A {
+				m[alt.String()] = true
+			}
+			return
+		}
+		m[s.String()] = true
+	}
 	for _, ret := range a.Returns() {
 		if idx < len(ret.Results) {
-			s := a.sh.Of(ret.Results[idx])
-			if s.K == "phi" {
-				for _, alt := range s.A {
-					m[alt.String()] = true
-				}
-				continue
-			}
-			m[s.String()] = true
+			addVal(ret.Results[idx])
 		}
 	}
-	return setKeys(m)
 }
 
 func containsPrefix(xs []string, p string) bool {
